@@ -5,12 +5,12 @@ set -e
 cd /verif/coq
 [ -f Makefile ] && [ Makefile -nt _CoqProject ] || coq_makefile -f _CoqProject -o Makefile >/dev/null
 if [ "$1" = "runner" ]; then
-  timeout 3000 make -j16 Model/Run.vo 2>&1 | grep -v "^COQDEP\|^COQC\|^CAMLDEP\|^make" || true
+  timeout 3000 make -j16 Model/Run2.vo 2>&1 | grep -v "^COQDEP\|^COQC\|^CAMLDEP\|^make" || true
 else
   timeout 3000 make -j16 2>&1 | grep -v "^COQDEP\|^COQC\|^CAMLDEP" || true
 fi
-test -f Model/Run.vo
-if [ ! -x /verif/runner/model_runner ] || [ Model/Run.vo -nt /verif/runner/model_runner ]; then
+test -f Model/Run2.vo
+if [ ! -x /verif/runner/model_runner ] || [ Model/Run2.vo -nt /verif/runner/model_runner ]; then
   (cd Extract && timeout 600 coqc -Q .. Errv Extract.v >/dev/null)
   cp Extract/runner.ml Extract/runner.mli /verif/runner/
   (cd /verif/runner && ocamlfind ocamlopt -O3 -w -a runner.mli runner.ml main.ml -o model_runner 2>&1 | grep -v "options -O3 is only relevant" || true)
